@@ -99,6 +99,7 @@ def gen_history(rng, nops, hostile=False, big=False):
         trigs += [rand_name(rng, nul=True) for _ in range(2)] + [b"", b"\x00"]
     longlist = [b"T%d" % i + rand_name(rng) for i in range(rng.choice((20, 45, 90)))]
     now = 1000
+    last = {}
     for _ in range(nops):
         c = rng.randrange(ncl)
         now += rng.choice((0, 0, 0, 0, 1, 1, 3, 10, -2))
@@ -110,7 +111,11 @@ def gen_history(rng, nops, hostile=False, big=False):
             else:
                 ts = [rng.choice(trigs) for _ in range(rng.choice((0, 0, 1, 1, 2, 3, 5)))]
             d = now + rng.choice((-5, 0, 1, 5, 50, 1000, 100000))
-            lines.append("store %d %d %s %s %s %d" % (c, now, hx(k), rand_val(rng, big), trig_word(ts), d))
+            v = rand_val(rng, big)
+            if k in last and rng.random() < 0.15:
+                v, d = last[k]          # identical value and deadline, (usually) another trigger set
+            last[k] = (v, d)
+            lines.append("store %d %d %s %s %s %d" % (c, now, hx(k), v, trig_word(ts), d))
         elif r < 0.78:
             lines.append("fetch %d %d %s %d" % (c, now, hx(k), rng.choice((0, 1, 1))))
         elif r < 0.90:
@@ -247,6 +252,53 @@ def collide_history(rng):
             lines.append("rise %d %s" % (c(), t.hex()))
         else:
             lines.append("stats %d" % c())
+    return lines
+
+
+def restore_history(rng):
+    """a key is stored again with byte-identical value and identical deadline but another trigger set (disjoint, superset,
+    subset, empty, permuted/duplicated); then a trigger that is only in one of the two sets is raised by another node and
+    every node fetches (with and without the trigger set): the entry must carry the triggers of the LATEST store"""
+    nsrv = rng.choice((1, 2))
+    ncl = rng.choice((2, 3))
+    l1 = [rng.choice(("n", "0", "5")) for _ in range(ncl)]
+    lines = ["cfg %s %s" % (",".join(["0"] * nsrv), ",".join(l1))]
+    now = 1000
+    names = [b"users", b"comments", b"news", b"t\x01\xff", b"x"]
+    for rnd in range(rng.randrange(2, 6)):
+        k = rand_name(rng)
+        v = rand_val(rng)
+        d = now + rng.choice((500, 5000, 2**31 + 5))
+        old = rng.sample(names, rng.randrange(0, 4))
+        shape = rng.choice(("disjoint", "superset", "subset", "empty", "same", "permuted"))
+        rest = [n for n in names if n not in old]
+        if shape == "disjoint":
+            new = rng.sample(rest, rng.randrange(1, len(rest) + 1)) if rest else []
+        elif shape == "superset":
+            new = old + rng.sample(rest, rng.randrange(1, len(rest) + 1)) if rest else old
+        elif shape == "subset":
+            new = old[:len(old) // 2]
+        elif shape == "empty":
+            new = []
+        elif shape == "same":
+            new = list(old)
+        else:
+            new = list(reversed(old)) + old[:1]
+        c = lambda: rng.randrange(ncl)
+        lines.append("store %d %d %s %s %s %d" % (c(), now, hx(k), v, trig_word(old), d))
+        if rng.random() < 0.7:
+            for c2 in range(ncl):
+                lines.append("fetch %d %d %s %d" % (c2, now, hx(k), rng.randrange(2)))
+        lines.append("store %d %d %s %s %s %d" % (c(), now, hx(k), v, trig_word(new), d))
+        for c2 in range(ncl):
+            lines.append("fetch %d %d %s 1" % (c2, now, hx(k)))
+        only_new = [t for t in new if t not in old]
+        only_old = [t for t in old if t not in new]
+        for t in rng.sample(only_new + only_old + [rng.choice(names)], min(2, len(only_new + only_old) + 1)):
+            lines.append("rise %d %s" % (c(), t.hex()))
+            for c2 in range(ncl):
+                lines.append("fetch %d %d %s %d" % (c2, now, hx(k), rng.randrange(2)))
+        now += rng.choice((0, 1, 3))
     return lines
 
 
@@ -831,6 +883,8 @@ def main():
     ns = [1, 2, 127, 128, 255, 256, 257, 511, 512, 513, 1024, 4096] + ([65535, 65536, 65537] if thorough else [])
     hs = [churn_history(rng, n) for n in ns for _ in range(3 if thorough else 1)]
     run_stream("churn", hs, True)
+    hs = [restore_history(rng) for i in range(300 if thorough else 30)]
+    run_stream("restore", hs, True)
     hs = [trigset_history(rng) for i in range(300 if thorough else 25)]
     run_stream("trigsets", hs, True)
     # binary keys built to collide in mem_cache's hash map (same length, equal up to the first NUL, same bucket)
